@@ -125,11 +125,12 @@ Inv_C08_Supplied ==
 
 Live_C08_Ends == <>[](stack = <<>> /\ asked = MaxAsk)
 
-\* C18 ranges over configurations and questions, not over histories in which the cache loses records: with such
-\* losses (and fix F15) a name server can be contacted at its other-family address although the cache has meanwhile
+\* C18 ranges over configurations and questions, not over histories in which the cache loses records or exchanges
+\* fail: with such losses (and fix F15), or when the look-up of the preferred address failed and glue brought it in
+\* afterwards, a name server can be contacted at its other-family address although the cache has meanwhile
 \* re-learnt the preferred one, because the look-up of the preferred address is refused as a duplicate of the
 \* client's own question (observation O1 in DESIGN.md).  The invariant is asserted where the property is stated.
-Inv_C18_Family == forgets = 0 => FamilyOK
+Inv_C18_Family == (forgets = 0 /\ faults = 0) => FamilyOK
 
 Inv_C10_Chain == (Finished /\ ret.ok /\ ret.res.kind = "NonAuthoritative") => ChainOk(cur, ret.res.rrs)
 =============================================================================
